@@ -292,7 +292,7 @@ func (c *Ctx) assumeAllocated(st *State, g *Term, t types.Type, v *Term) {
 
 // assumeLoadedRef: a reference read from heap array `name` in state st was allocated before; if the array is still
 // the function-entry version, before the function started.
-func (c *Ctx) assumeLoadedRef(st *State, name string, t types.Type, v *Term) {
+func (c *Ctx) assumeLoadedRef(st *State, name string, t types.Type, v *Term, idx ...*Term) {
 	var lhs *Term
 	switch t.Underlying().(type) {
 	case *types.Pointer, *types.Map:
@@ -303,11 +303,17 @@ func (c *Ctx) assumeLoadedRef(st *State, name string, t types.Type, v *Term) {
 		return
 	}
 	bound := c.heapGet(st, c.allocName())
-	if cur, ok := st.heap[name]; !ok || cur.S == sanitize(name)+"@0" {
-		bound = mk(SInt, sanitize("$alloc")+"@0")
-		c.declare(bound.S, SInt)
-	}
 	c.assume(mk(SBool, fmt.Sprintf("(and (>= %s 0) (<= %s %s))", lhs.S, lhs.S, bound.S)))
+	if cur, ok := st.heap[name]; !ok || cur.S == sanitize(name)+"@0" {
+		// the array still is the function-entry version: a cell of an object that existed at entry holds a reference
+		// that existed at entry (cells at references allocated later are meaningless in the entry array)
+		a0 := mk(SInt, sanitize("$alloc")+"@0")
+		c.declare(a0.S, SInt)
+		if len(idx) == 0 || idx[0] == nil {
+			return
+		}
+		c.assume(mk(SBool, fmt.Sprintf("(=> (<= %s %s) (<= %s %s))", idx[0].S, a0.S, lhs.S, a0.S)))
+	}
 }
 
 // ---------- constants ----------
